@@ -673,11 +673,10 @@ func c18Explain(probes []c18Probe, v c18Verdict) any {
 	return m
 }
 
-func c18RunA(c *engine.Ctx, root string) {
+func c18RunA(c *engine.Ctx, root string, quick bool) {
 	c.Sub("scoping")
 	c18WriteA(root)
 	probes := c18Probes()
-	quick := c.Quick()
 	mains := c18Permutations(len(c18MainAlphabet), 2)
 	if !quick {
 		mains = c18Permutations(len(c18MainAlphabet), 3)
@@ -1253,10 +1252,15 @@ func c18RunBin(rd string, args []string) CLIResult {
 func c18Run(c *engine.Ctx) {
 	root := WorkDir() + "/c18"
 	os.MkdirAll(root, 0o755)
-	c18RunA(c, root)
+	// the quick bounds of the scoping part first, completely; the thorough tier adds its larger bounds at the end, under
+	// the wall-clock guard (so a thorough run always covers what a quick run covers)
+	c18RunA(c, root, true)
 	c18RunB(c, root)
 	c18RunC(c, root)
 	c18RunD(c, root)
+	if !c.Quick() {
+		c18RunA(c, root, false)
+	}
 }
 
 func c18Replay(v *engine.Violation) (bool, string) {
